@@ -320,6 +320,14 @@ def check_target_test(prog, rep, f, entry, k, L, gt, src, vals, px):
         rep.add('X6', f, entry, 'target test', L.node.lineno, False, 'the target flag is carried over from the previous pixel (%s): it must '
                 'be reset for every pixel, otherwise every cell after the first target counts as a target' % stale[0].name)
         return
+    positional = [a for a in elems if len(a.args) == 2 and isinstance(a.args[1], Rat) and
+                  any(isinstance(x, App) and (x.name.startswith('ext:') or x.name in ('opaque', 'method:searchsorted')) or
+                      'searchsorted' in repr(x) or 'bisect' in repr(x) for x in walk_atoms(a.args[1]))]
+    if positional and not flags:
+        rep.add('X6', f, entry, 'target test', L.node.lineno, False, 'with explicit target values a cell is a target iff it equals '
+                'one of them, whatever their order: the test looks at one position found by a sorted-order lookup (%s), which is '
+                'right for ascending lists only' % show(Rat.atom(positional[0]), 80))
+        return
     try:
         if len(n_at) != 1 or len(fin) > 1 or len(flags) > 1:
             raise CannotEvaluate('quantities: len %d isfinite %d flags %d' % (len(n_at), len(fin), len(flags)))
